@@ -139,6 +139,9 @@ func (s *Stats) AddResult(r *Result) {
 		for k, v := range r.Run.FaultsFired {
 			s.FaultsFired[k] += v
 		}
+		for _, u := range r.Run.Unmodelled {
+			s.Probes["stub-ignored-an-option-it-does-not-model: "+u]++
+		}
 	}
 	if r.Leaked {
 		s.Probes["goroutines-left-blocked-after-main"]++
